@@ -35,7 +35,7 @@ def focus():
           T._execute_test_teardown, T._thread_proc, T._execute_test_start, T._execute_phase, T._execute_phase_group,  # pylint: disable=protected-access
           P._execute_phase_once, P.stop, P.reset_stop, P.execute_phase,  # pylint: disable=protected-access
           pe.PhaseExecutorThread.join_or_die, th.KillableThread.run, th.KillableThread.kill,
-          td.Test.abort_from_sig_int, ts.TestState.abort, ts.TestState._finalize, ts.TestState.running_phase_context]  # pylint: disable=protected-access
+          td.Test.abort_from_sig_int, td.Test.execute, ts.TestState.abort, ts.TestState._finalize, ts.TestState.running_phase_context]  # pylint: disable=protected-access
 
 
 FOCUS_FILES = ('openhtf/core/test_executor.py', 'openhtf/core/phase_executor.py', 'openhtf/util/threads.py',
@@ -73,6 +73,8 @@ def build(program, log):
       runtime.vlog('plug-init')
 
     def tearDown(self):
+      runtime.vlog('plug-teardown-begin')
+      runtime.yield_point('ptd:plug')
       runtime.vlog('plug-teardown')
 
   def with_plug(ph):
@@ -114,7 +116,7 @@ def _gate_filter_quick(sched, me):
   if me is None:
     return False
   lab = me.label
-  if lab.startswith(('b1:', 'b2:', 'sleep')):
+  if lab.startswith(('b1:', 'b2:', 'sleep', 'ptd:')):
     return True
   return lab.startswith(('L:_execute_abortable_sequence', 'L:_execute_teardown_sequence', 'L:_execute_phase_once',
                          'L:_thread_proc', 'L:_execute_test_teardown', 'L:_execute_phase:', 'L:execute_phase',
@@ -122,18 +124,28 @@ def _gate_filter_quick(sched, me):
 
 
 def _gate_filter_body(sched, me):
-  return me is not None and me.label.startswith(('b1:', 'b2:', 'sleep'))
+  return me is not None and me.label.startswith(('b1:', 'b2:', 'sleep', 'ptd:'))
 
 
 def _gate_filter_main(sched, me):
   return me is not None and me.label in ('b1:m1', 'b2:m1', 'b1:m2', 'b2:m2')
 
 
+def _signal_filter_free(sched, me):
+  """Delivery moments of free (cost 0) SIGINTs: while some phase / plug body is at a yield point or asleep, and at
+  every line of Test.execute() on the main thread."""
+  if me is None:
+    return False
+  if me.label.startswith(('b1:', 'b2:', 'sleep', 'ptd:')):
+    return True
+  return me.tid == 0 and me.label.startswith(('L:execute:', 'thread.start:TestExecutor'))
+
+
 GATE_MODES = {'wide': _gate_filter_quick, 'body': _gate_filter_body, 'main': _gate_filter_main, 'all': lambda sched, me: True}
 GATE_FILTER = [_gate_filter_quick]
 
 
-def scenario(program, aborts, via):
+def scenario(program, aborts, via, mode=None):
   h, pe, td, te, ts, th = mods()
 
   def fn(sched):
@@ -146,6 +158,12 @@ def scenario(program, aborts, via):
 
     test.add_output_callbacks(cb)
     td.Test.HANDLED_SIGINT_ONCE = False
+    # process-wide state an earlier execution may have left behind when execute() was torn apart by a KeyboardInterrupt
+    td.Test.TEST_INSTANCES.clear()
+    import logging  # pylint: disable=g-import-not-at-top
+    hl = logging.getLogger('openhtf')
+    for hd in [x for x in hl.handlers if type(x).__name__ == 'RecordHandler']:
+      hl.removeHandler(hd)
     at = None
     if via == 'thread':
       gates = [threading.Event() for _ in range(aborts)]
@@ -163,11 +181,19 @@ def scenario(program, aborts, via):
       for g in gates:
         prev = sched.add_gate(g, 'aborter', flt=GATE_FILTER[0], cost=0, after=prev)
     else:
-      sched.signal_handler = lambda: (runtime.vlog('sigint'), td.Test.handle_sig_int(2, None))
-      # "the operator aborts a running test": SIGINT is delivered while a test is registered for it
-      sched.signal_enabled = lambda: bool(td.Test.TEST_INSTANCES)
+      sched.signal_handler = lambda: (runtime.vlog('sigint', bool(td.Test.TEST_INSTANCES), test._executor is not None,  # pylint: disable=protected-access
+                                                   not td.Test.HANDLED_SIGINT_ONCE,
+                                                   any(t.name.startswith('TestExecutorThread') and t.state == 'done'
+                                                       for t in sched.threads)), td.Test.handle_sig_int(2, None))
+      # SIGINT is delivered on the main thread at any line of execute() (before the test is registered for it the
+      # process-wide default handler raises KeyboardInterrupt)
+      sched.signal_enabled = lambda: True
+      if mode == 'free':
+        sched.signal_cost = 0
+        sched.signal_enabled = lambda: _signal_filter_free(sched, sched.current)
       sched.signals_left = aborts
     res = None
+    reexec = None
     runtime.vlog('execute-call')
     try:
       res = test.execute(test_start=test_start)
@@ -176,23 +202,32 @@ def scenario(program, aborts, via):
     finally:
       sched.signals_left = 0
     runtime.vlog('execute-return', res)
+    n_first = len(recs)
+    if via == 'sigint' and res == 'KeyboardInterrupt' and not recs and not any(e[0] == 'body-start' for e in sched.events):
+      # interrupted before the run began: the Test must still be usable
+      try:
+        reexec = test.execute(test_start=test_start)
+      except td.InvalidTestStateError:
+        reexec = 'InvalidTestStateError'
+      runtime.vlog('re-execute', reexec)
     if at is not None:
       for g in gates:
         g.set()          # never-fired gates: let the aborter finish (the test is over: "no running test")
       at.join()
-    rec = recs[0] if recs else None
-    return {'res': res, 'outcome': rec.outcome.name if rec is not None and rec.outcome else None, 'n_callbacks': len(recs),
+    rec = recs[0] if n_first else None
+    return {'res': res, 'outcome': rec.outcome.name if rec is not None and rec.outcome else None, 'n_callbacks': n_first,
             'phases': [(p.name, p.outcome.name if p.outcome else None) for p in rec.phases] if rec is not None else [],
-            'state_left': test.state is not None}
+            'state_left': test.state is not None, 'reexec': reexec}
 
   return fn
 
 
 def execute(cfg, choices):
   program, aborts, via = cfg[:3]
-  GATE_FILTER[0] = GATE_MODES[cfg[3] if len(cfg) > 3 else 'wide']
+  mode = cfg[3] if len(cfg) > 3 else None
+  GATE_FILTER[0] = GATE_MODES[mode if via == 'thread' and mode else 'wide']
   sched, value = explore.run_under_scheduler(
-      scenario(program, aborts, via), choices, focus_targets=focus(), focus_files=FOCUS_FILES, max_steps=60000,
+      scenario(program, aborts, via, mode), choices, focus_targets=focus(), focus_files=FOCUS_FILES, max_steps=60000,
       line_watch=LINE_WATCH)
   ev = list(sched.events)
   result = {'value': value if isinstance(value, dict) else repr(value), 'events': ev,
@@ -225,18 +260,60 @@ def after_kill_lineno():
 
 
 def analyse(cfg, ex):
-  """Returns list of (kind, what).  Shared by C04 and (single abort, groups) C03."""
+  """Returns list of (kind, what).  Shared by C04 and (single abort, groups) C03.
+
+  For SIGINT runs the consequences of a signal that hit one of execute()'s unprotected windows are reported as ONE
+  violation naming that window (the consequences vary wildly with the schedule: lost callbacks, orphaned run, Test
+  left 'running', AttributeError...); everything else is judged by the ordinary rules."""
+  raw = _analyse_raw(cfg, ex)
+  if cfg[2] != 'sigint' or not raw or raw[0][0] == 'sigint-nested-handler-deadlock':
+    return raw
+  sig = [e for e in ex.result['events'] if e[0] == 'sigint']
+  zones = sigint_zones(ex)
+  detail = '; '.join('%s: %s' % (k, w[:160]) for k, w in raw[:4])
+  for i, e in enumerate(sig):
+    registered, has_executor = e[1], e[2]
+    if not registered and has_executor:
+      return [('sigint-while-unregistered', 'SIGINT #%d arrived while an executor existed but the Test was not registered for '
+               'SIGINT (zone %s): the process default handler raised KeyboardInterrupt instead of aborting the run. '
+               'Consequences here: %s' % (i + 1, zones[i] if i < len(zones) else '?', detail))]
+  for i, e in enumerate(sig):
+    if i < len(zones) and zones[i] == 'finishing' and e[3]:
+      return [('sigint-in-finally-block', 'SIGINT #%d arrived while execute() was in its finally block (the run itself was '
+               'over) and the handler raised KeyboardInterrupt there. Consequences here: %s' % (i + 1, detail))]
+  return raw
+
+
+def _analyse_raw(cfg, ex):
   program, aborts, via = cfg[:3]
   out = []
   ev = ex.result['events']
   v = ex.result['value']
   if ex.failure is not None:
+    if via == 'sigint' and aborts == 2 and type(ex.failure).__name__ == 'Deadlock' and \
+        "('main', 'blocked', 'lock.wait@test_descriptor.py')" in str(ex.failure):
+      out.append(('sigint-nested-handler-deadlock', 'a second SIGINT arrived while the handler of the first one held '
+                  'Test._lock: the nested handler blocks on that lock forever: %s' % (ex.failure,)))
+      return out
     out.append(('no-return:%s' % type(ex.failure).__name__, 'execute() did not return: %s' % (ex.failure,)))
     return out
   if not isinstance(v, dict):
     out.append(('harness-exception', 'scenario raised %r' % (v,)))
     return out
   names = [e[0] for e in ev]
+  zones = sigint_zones(ex) if via == 'sigint' else []
+  if zones[:1] == ['prestart']:
+    # SIGINT before the executor thread exists: nobody is registered, the default handler raises KeyboardInterrupt.
+    # No run may go on behind the caller's back and the Test must remain usable.
+    if v['res'] != 'KeyboardInterrupt':
+      out.append(('prestart-no-keyboardinterrupt', 'SIGINT before the run started but execute() returned %r' % (v['res'],)))
+    first_ret = names.index('execute-return') if 'execute-return' in names else len(ev)
+    if any(e[0] == 'body-start' for e in ev[:first_ret]) or v['n_callbacks']:
+      out.append(('prestart-run-went-on', 'SIGINT before the run started, yet phase bodies ran / callbacks were called'))
+    if v['reexec'] not in (True, False):
+      out.append(('prestart-test-unusable', 'after KeyboardInterrupt left execute() before the run started, a new '
+                  'execute() gives %r' % (v['reexec'],)))
+    return out
   # abort() calls on the executor (line watch: first line of TestExecutor.abort) and their returns
   abort_first_line = min([e[3] for e in ev if e[0] == 'line' and e[2] == 'abort'] or [0])
   abort_begin = [i for i, e in enumerate(ev) if e[0] == 'line' and e[2] == 'abort' and e[3] == abort_first_line]
@@ -301,6 +378,11 @@ def analyse(cfg, ex):
       out.append(('not-aborted', 'abort() returned before finalization began but outcome is %s' % v['outcome']))
   if abort_begin and fin_begin is not None and abort_begin[0] < fin_begin and v['outcome'] == 'PASS' and effective_returns and effective_returns[0] < fin_begin:
     out.append(('pass-after-abort', 'outcome PASS although abort() returned before finalization'))
+  # (5b) the outcome is decided after plug tearDown: an abort that returned while a plug was still being torn down counts
+  plug_td_end = [i for i, e in enumerate(ev) if e[0] == 'plug-teardown']
+  if effective_returns and plug_td_end and effective_returns[0] < plug_td_end[-1] and v['outcome'] != 'ABORTED':
+    out.append(('not-aborted-during-plug-teardown',
+                'abort() returned before the plugs were torn down but the outcome is %s' % v['outcome']))
   # (6) callbacks exactly once
   if v['n_callbacks'] != 1:
     out.append(('callbacks', 'output callback called %d times' % v['n_callbacks']))
@@ -364,20 +446,36 @@ def group_rules(program, ev):
   return out
 
 
-def sigint_zone(ex):
-  """Where the first SIGINT landed: startup (before execute() waits), waiting, finishing (executor thread done)."""
+def sigint_zones(ex):
+  """Where each SIGINT landed: prestart (no executor thread yet), startup (thread started, execute() not yet
+  waiting), waiting, finishing (executor thread done: execute() is in its finally block)."""
   seen_wait = False
   exec_done = False
+  started = False
+  zones = []
   for p in ex.points:
-    if p['tid'] == 0 and p['label'].startswith('thread.join:TestExecutor'):
+    if p['tid'] == 0 and p['label'].startswith('thread.start:TestExecutor'):
+      started = True
+    if p['tid'] == 0 and p['label'].startswith(('thread.join:TestExecutor', 'event.wait@test_executor')):
       seen_wait = True
     if p['label'].startswith('exit:TestExecutorThread'):
       exec_done = True
-    if p['kinds'][p['choice']] == 'signal':
+    if p['kinds'][p['choice']].startswith('signal'):
       if exec_done:
-        return 'finishing'
-      return 'waiting' if seen_wait else 'startup'
-  return 'none'
+        zones.append('finishing')
+      else:
+        zones.append('waiting' if seen_wait else ('startup' if started else 'prestart'))
+  # the handler logged whether the executor thread had already finished: that is the authoritative "finishing"
+  sig = [e for e in ex.result['events'] if e[0] == 'sigint']
+  for i, e in enumerate(sig):
+    if i < len(zones) and len(e) > 4 and e[4]:
+      zones[i] = 'finishing'
+  return zones
+
+
+def sigint_zone(ex):
+  z = sigint_zones(ex)
+  return '+'.join(z) if z else 'none'
 
 
 def check(cfg):
@@ -393,11 +491,13 @@ def configs(tier):
   if tier == 'quick':
     return [(('plain3', 1, 'thread', 'wide'), 0), (('group', 1, 'thread', 'wide'), 0), (('trigger', 1, 'thread', 'wide'), 0),
             (('repeat', 1, 'thread', 'wide'), 0), (('subtest', 1, 'thread', 'wide'), 0),
-            (('group', 1, 'thread', 'main'), 1), (('group', 2, 'thread', 'body'), 0), (('plain3', 1, 'sigint'), 1)]
+            (('group', 1, 'thread', 'main'), 1), (('group', 2, 'thread', 'body'), 0), (('plain3', 1, 'sigint'), 1),
+            (('group', 2, 'sigint', 'free'), 0)]
   return [(('plain3', 1, 'thread', 'all'), 1), (('group', 1, 'thread', 'all'), 1), (('trigger', 1, 'thread', 'all'), 1),
           (('repeat', 1, 'thread', 'all'), 1), (('subtest', 1, 'thread', 'all'), 1), (('group', 1, 'thread', 'body'), 2),
           (('group', 2, 'thread', 'wide'), 0), (('group', 2, 'thread', 'body'), 1), (('plain3', 2, 'thread', 'body'), 1),
-          (('plain3', 1, 'sigint'), 2), (('group', 1, 'sigint'), 1), (('group', 2, 'sigint'), 2)]
+          (('plain3', 1, 'sigint'), 2), (('group', 1, 'sigint'), 1), (('group', 2, 'sigint', 'free'), 1),
+          (('trigger', 2, 'sigint', 'free'), 0), (('subtest', 2, 'sigint', 'free'), 0)]
 
 
 def run(tier):
